@@ -34,6 +34,9 @@ KINDS = [
     ('dflt_lambda', ['def h1(k=lambda @: 0): return k', 'print(h1)'], 'lamparam'),
     ('dflt_comp', ['def h1(k=[0 for @ in []]): return k', 'print(h1)'], 'local'),
     ('global_assign', ['global @', '@ = 1'], 'global'),
+    ('if_else', ['if print:', '    @ = 1', 'else:', '    @ = 2'], 'local'),
+    ('if_only', ['@ = 0', 'if print:', '    @ = 1'], 'local'),
+    ('import_try', ['try:', '    import @', 'except ImportError:', '    import @'], 'import'),
     ('param', None, 'param'),
     ('kwonly', None, 'param'),
     ('vararg', None, 'param'),
@@ -42,7 +45,7 @@ SCOPES = ('module', 'class', 'function', 'method', 'lambda', 'nested')
 NAMES = ('zq', '_zq', 'print_function')     # plain, underscore, (for __future__)
 
 
-def build(scope, kind, name, read, dotted_use):
+def build(scope, kind, name, read, dotted_use, loc=0):
     """-> (text, expected list of (code, message, line, col)) or None if the combination does not exist"""
     kid, tmpl, kclass = KINDS[kind]
     sc = SCOPES[scope]
@@ -57,9 +60,9 @@ def build(scope, kind, name, read, dotted_use):
         ident = 'os' if name == 0 else None
         if ident is None:
             return None
-    if kid == 'import' and name == 0:
+    if kid in ('import', 'import_try') and name == 0:
         ident = 'sys'
-    if kid == 'import' and name == 1:
+    if kid in ('import', 'import_try') and name == 1:
         ident = '_thread'
     if kid == 'from':
         ident = 'sep' if name == 0 else '_exit'
@@ -113,18 +116,30 @@ def build(scope, kind, name, read, dotted_use):
             lines.append(hdr)
             first = 'self' if sc == 'method' else 'p0'
             body = body + ['print(%s)' % first]
+        if loc == 2:
+            # a nested function (a method in a class body) of the binding's scope that calls locals()
+            if sc == 'class':
+                use = use + ['def lz(self): return (self, locals())']
+            else:
+                use = use + ['def lz(): return locals()', 'print(lz)']
         for b in body + use:
             lines.append(ind + b)
         if sc == 'nested':
             lines.append('    inner(1)')
+    if loc == 1:
+        # an unrelated function at the end of the module that calls locals()
+        lines += ['def lz(p9):', '    return (p9, locals())']
+    if loc and sc == 'lambda':
+        return None
     text = '\n'.join(lines) + '\n'
-    # locate the binding identifier
+    # locate the binding identifier(s); the offset of a later '@' on the same line does not occur
     pos = None
-    out = []
+    allpos = []
     for i, ln in enumerate(text.split('\n')):
         j = ln.find('@')
         if j >= 0:
             pos = (i + 1, j)
+            allpos.append(pos)
     text = text.replace('@', ident)
     if kid == 'dotted':
         # 'import os.path' binds os at the position of 'os'
@@ -148,17 +163,20 @@ def build(scope, kind, name, read, dotted_use):
             never_read = False      # a lambda written directly in a class body counts as a method: parameters exempt
     if kclass == 'global':
         never_read = False  # not a local of the function: nothing to report
+    if len(allpos) < 2 or kid in ('tuple', 'star', 'except', 'global_assign'):
+        allpos = [pos]
     if never_read and not under:
-        if in_func:
-            if not (kclass == 'param' and sc == 'method'):
-                expected.append(('W01', 'Unused name: ' + ident, pos[0], pos[1]))
-        elif kclass in ('import', 'dotted'):
-            expected.append(('W02', 'Unused import: ' + ident, pos[0], pos[1]))
+        for pos in allpos:
+            if in_func:
+                if not (kclass == 'param' and sc == 'method'):
+                    expected.append(('W01', 'Unused name: ' + ident, pos[0], pos[1]))
+            elif kclass in ('import', 'dotted'):
+                expected.append(('W02', 'Unused import: ' + ident, pos[0], pos[1]))
     return text, expected
 
 
-def problems(scope, kind, name, read, dotted_use):
-    b = build(scope, kind, name, read, dotted_use)
+def problems(scope, kind, name, read, dotted_use, loc=0):
+    b = build(scope, kind, name, read, dotted_use, loc)
     if b is None:
         return []
     text, expected = b
@@ -181,17 +199,17 @@ def _c(v, lo, hi):
     return lo
 
 
-def check(scope: int, kind: int, name: int, read: bool, dotted_use: bool) -> bool:
+def check(scope: int, kind: int, name: int, read: bool, dotted_use: bool, loc: int = 0) -> bool:
     """
-    pre: 0 <= scope <= 5 and 0 <= kind <= 23 and 0 <= name <= 2
+    pre: 0 <= scope <= 5 and 0 <= kind <= 26 and 0 <= name <= 2 and 0 <= loc <= 2
     post: _
     """
     PATHS[0] += 1
     from crosshair.tracers import NoTracing
-    s, k, n = _c(scope, 0, 5), _c(kind, 0, 23), _c(name, 0, 2)
+    s, k, n, loc = _c(scope, 0, 5), _c(kind, 0, 26), _c(name, 0, 2), _c(loc, 0, 2)
     r = True if read else False
     d = True if dotted_use else False
     with NoTracing():
         if TWIN[0]:
             return False
-        return not problems(s, k, n, r, d)
+        return not problems(s, k, n, r, d, loc)
